@@ -17,6 +17,9 @@ def main():
     try:
         rc, o = sh("git apply %s" % patch, cwd=repo)
         if rc != 0:
+            rc, o = sh("git apply --3way %s && git reset -q" % patch, cwd=repo)
+            meta["patch_applied_with_3way_merge"] = rc == 0
+        if rc != 0:
             meta["error"] = "patch does not apply: " + o[-300:]
         else:
             rc, o = sh("go build ./... && go test -vet=off -count=1 ./...", cwd=repo)
